@@ -240,7 +240,7 @@ def main(argv):
         "wall_s": round(wall, 2),
         "violations": len(violations),
     }
-    if not only:
+    if not only and not os.environ.get("VERIF_NO_EVIDENCE"):   # VERIF_NO_EVIDENCE: sensitivity runs against mutated copies
         os.makedirs(os.path.join(HERE, "evidence"), exist_ok=True)
         with open(os.path.join(HERE, "evidence", f"{pid}.json"), "w") as f:
             json.dump(evidence, f, indent=1, sort_keys=True, default=str)
